@@ -1,5 +1,6 @@
 import CwPlus.Lemmas.Cw3Flex
 import CwPlus.Lemmas.Cw3StatusTotal
+import CwPlus.Lemmas.Cw3FlexPool
 /-!
 # C15 — cw3-flex-multisig proposal deposits
 
@@ -776,5 +777,652 @@ example :
     ((tx Cex.noExt 10 w ⟨11, 0⟩ (.flex "x" [] (.execute 1))).toOption.map fun w' =>
       (balance w' "a" "ucosm", balance w' "ms" "ucosm", handled w'.log 1)) = some (20, 0, 1) := by
   decide
+
+/-! ## (7) the deposit pool across concurrent proposals, at world level
+
+Ghost quantities, all read off the world (`w.bank`, `w.token`, the ghost log and the proposal map):
+
+* `holdings dep w` — what the multisig holds of the deposit denomination (native: its bank balance of `dep.denom`;
+  cw20: its balance in the world's token contract),
+* `unreturned w` — the proposals whose deposit was taken and not returned: created (`1..count`) and with no
+  `Execute`/`Close` in the committed history (`handled w.log id = 0`; by `refund_only_to_proposer` only those calls
+  ever return a deposit),
+* `owed w` — Σ of the recorded deposits of the `unreturned` proposals (this includes the proposals stuck by D6:
+  their deposit sits in the pool too, so the statement below is the stronger one).
+-/
+
+/-- What the multisig holds of the deposit denomination. -/
+def holdings (dep : Deposit) (w : World) : Nat :=
+  if dep.cw20 then Cw20.bal w.token w.self else balance w w.self dep.denom
+
+/-- The proposals whose deposit was taken and never returned: ids `1..count` without `Execute`/`Close` in the log. -/
+def unreturned (w : World) : List Nat := (List.range' 1 w.flex.core.count).filter (fun id => handled w.log id == 0)
+
+/-- The deposit amount recorded in proposal `id` (0 when there is none). -/
+def depositOf (c : Core) (id : Nat) : Nat :=
+  match c.proposals.get? id with
+  | some p => (p.deposit.map (·.amount)).getD 0
+  | none => 0
+
+/-- **Σ of the deposits still owed**: over the proposals whose deposit was taken and not returned. -/
+def owed (w : World) : Nat := ((unreturned w).map (depositOf w.flex.core)).sum
+
+/-- Number of ids `1..n` without `Execute`/`Close` in the log (recursive form of `(unreturned w).length`). -/
+def pend (log : List Event) : Nat → Nat
+  | 0 => 0
+  | n + 1 => pend log n + (if handled log (n + 1) = 0 then 1 else 0)
+
+theorem pend_congr {log log' : List Event} : ∀ n, (∀ id, 1 ≤ id → id ≤ n → handled log' id = handled log id) →
+    pend log' n = pend log n
+  | 0, _ => rfl
+  | n + 1, h => by
+    simp only [pend]
+    rw [pend_congr n (fun id h1 h2 => h id h1 (by omega)), h (n + 1) (by omega) (Nat.le_refl _)]
+
+/-- One id in range goes from "never handled" to "handled", all others keep their count: one proposal less pending. -/
+theorem pend_mark {log log' : List Event} {id0 : Nat} (h0 : handled log id0 = 0) (h1 : handled log' id0 ≠ 0)
+    (hrest : ∀ id, id ≠ id0 → handled log' id = handled log id) :
+    ∀ n, 1 ≤ id0 → id0 ≤ n → pend log n = pend log' n + 1
+  | 0, h, h' => by omega
+  | n + 1, h, h' => by
+    simp only [pend]
+    by_cases e : id0 = n + 1
+    · subst e
+      rw [pend_congr n (fun id _ h2 => hrest id (by omega))]
+      simp [h0, h1]
+    · rw [pend_mark h0 h1 hrest n h (by omega), hrest (n + 1) (fun x => e x.symm)]
+      omega
+
+theorem sum_filter_range (log : List Event) (f : Nat → Nat) (a : Nat) :
+    ∀ n, (∀ id, 1 ≤ id → id ≤ n → f id = a) →
+      (((List.range' 1 n).filter (fun id => handled log id == 0)).map f).sum = a * pend log n
+  | 0, _ => by simp [pend]
+  | n + 1, h => by
+    rw [List.range'_1_concat, List.filter_append, List.map_append, List.sum_append,
+      sum_filter_range log f a n (fun id h1 h2 => h id h1 (by omega))]
+    simp only [pend]
+    by_cases e : handled log (1 + n) = 0
+    · have e' : handled log (n + 1) = 0 := by rw [Nat.add_comm]; exact e
+      have := h (1 + n) (by omega) (by omega)
+      simp [e, e', this, Nat.mul_add]
+    · have e' : ¬ handled log (n + 1) = 0 := by rw [Nat.add_comm]; exact e
+      simp [e, e']
+
+/-- Under `Inv` every stored proposal carries the configured deposit, so Σ owed = amount × number of pending ids. -/
+theorem owed_eq {dep : Deposit} {w : World} (hi : Inv w.flex) (hd : w.flex.cfg.deposit = some dep) :
+    owed w = dep.amount * pend w.log w.flex.core.count := by
+  unfold owed unreturned
+  refine sum_filter_range w.log _ dep.amount _ (fun id h1 h2 => ?_)
+  have := (hi.wf.ids id).mpr ⟨h1, h2⟩
+  cases hp : w.flex.core.proposals.get? id with
+  | none => rw [hp] at this; cases this
+  | some p => simp [depositOf, hp, hi.propDeposit id p hp, hd]
+
+theorem unreturned_length (w : World) : (unreturned w).length = pend w.log w.flex.core.count := by
+  have := sum_filter_range w.log (fun _ => 1) 1 w.flex.core.count (fun _ _ _ => rfl)
+  have hone : ∀ l : List Nat, (l.map (fun _ => 1)).sum = l.length := by
+    intro l; induction l with
+    | nil => rfl
+    | cons a r ih => simp [ih]; omega
+  unfold unreturned
+  rw [← hone, this, Nat.one_mul]
+
+/-- `dep.amount ×` the number of proposals whose deposit was taken and not returned (`= owed w`, `owed_eq`). -/
+def due (dep : Deposit) (w : World) : Nat := dep.amount * pend w.log w.flex.core.count
+
+/-- A proposal message that spends the deposit denomination out of the multisig.  In the message language of the model
+(`Cw3Core.Msg`: bank send, calls back into the multisig, group update, failing call) only a `BankMsg::Send` of the
+native deposit denom does; no message of the language reaches the cw20 token, so with a cw20 deposit nothing spends. -/
+def spends (dep : Deposit) : Msg → Bool
+  | .bank _ _ denom => !dep.cw20 && denom == dep.denom
+  | _ => false
+
+/-- Some proposal that was executed in the committed history carries a message spending the deposit denomination. -/
+def Dirty (dep : Deposit) (w : World) : Prop :=
+  ∃ id p, Event.executed id ∈ w.log ∧ w.flex.core.proposals.get? id = some p ∧ ∃ m ∈ p.msgs, spends dep m = true
+
+/-- **The guard of `pool_covers_owed_if_unspent`**, stated on the executed proposals only: no proposal with an
+`executed` event in the committed history has a message that spends the deposit denomination. -/
+def NoSpend (dep : Deposit) (w : World) : Prop :=
+  ∀ id p, Event.executed id ∈ w.log → w.flex.core.proposals.get? id = some p → ∀ m ∈ p.msgs, spends dep m = false
+
+theorem not_dirty_of_noSpend {dep : Deposit} {w : World} (h : NoSpend dep w) : ¬ Dirty dep w := by
+  rintro ⟨id, p, h1, h2, m, hm, hs⟩
+  rw [h id p h1 h2 m hm] at hs; cases hs
+
+/-- What dispatching one returned message may take out of the pool. -/
+def outDebit (dep : Deposit) : Out → Nat
+  | .bank _ amt denom => if dep.cw20 = false ∧ denom = dep.denom then amt else 0
+  | .cw20Transfer _ _ amt => if dep.cw20 = true then amt else 0
+  | _ => 0
+
+/-- What dispatching one returned message brings into the pool (`TransferFrom` to the multisig itself). -/
+def outCredit (dep : Deposit) (self : Addr) : Out → Nat
+  | .cw20TransferFrom _ _ to amt => if dep.cw20 = true ∧ to = self then amt else 0
+  | _ => 0
+
+def debits (dep : Deposit) (outs : List Out) : Nat := (outs.map (outDebit dep)).sum
+def credits (dep : Deposit) (self : Addr) (outs : List Out) : Nat := (outs.map (outCredit dep self)).sum
+def cleanOuts (dep : Deposit) (outs : List Out) : Prop := ∀ m, Out.msg m ∈ outs → spends dep m = false
+
+@[simp] theorem debits_nil (dep : Deposit) : debits dep [] = 0 := rfl
+@[simp] theorem credits_nil (dep : Deposit) (self : Addr) : credits dep self [] = 0 := rfl
+@[simp] theorem debits_cons (dep : Deposit) (o : Out) (r : List Out) : debits dep (o :: r) = outDebit dep o + debits dep r := by
+  simp [debits]
+@[simp] theorem credits_cons (dep : Deposit) (self : Addr) (o : Out) (r : List Out) :
+    credits dep self (o :: r) = outCredit dep self o + credits dep self r := by
+  simp [credits]
+theorem cleanOuts_nil (dep : Deposit) : cleanOuts dep [] := by intro m h; cases h
+theorem cleanOuts_tail {dep : Deposit} {o : Out} {r : List Out} (h : cleanOuts dep (o :: r)) : cleanOuts dep r :=
+  fun m hm => h m (List.mem_cons_of_mem _ hm)
+
+theorem debits_msgs (dep : Deposit) (msgs : List Msg) : debits dep (msgs.map Out.msg) = 0 := by
+  induction msgs with
+  | nil => rfl
+  | cons m r ih => simp [outDebit, ih]
+
+theorem credits_hooks (dep : Deposit) (self : Addr) (hs : List Addr) : credits dep self (hs.map Out.groupHook) = 0 := by
+  induction hs with
+  | nil => rfl
+  | cons m r ih => simp [outCredit, ih]
+
+theorem debits_hooks (dep : Deposit) (hs : List Addr) : debits dep (hs.map Out.groupHook) = 0 := by
+  induction hs with
+  | nil => rfl
+  | cons m r ih => simp [outDebit, ih]
+
+theorem cleanOuts_hooks (dep : Deposit) (hs : List Addr) : cleanOuts dep (hs.map Out.groupHook) := by
+  intro m hm; simp at hm
+
+theorem outDebit_refund (dep : Deposit) (a : Addr) : outDebit dep (refundMsg dep a) = dep.amount := by
+  unfold refundMsg
+  cases h : dep.cw20 <;> simp [outDebit, h]
+
+/-- The part of the world invariant that does not mention balances: the ghost invariant of clause 3, the configured
+deposit, and — for a cw20 deposit — the multisig has granted no allowance on the token. -/
+structure PoolGood (dep : Deposit) (w : World) : Prop where
+  ghost : GhostInv w
+  cfg : w.flex.cfg.deposit = some dep
+  grant : dep.cw20 = true → NoGrant w.token w.self
+
+/-- A fresh id was never handled. -/
+theorem handled_fresh {w : World} (hq : GhostInv w) {id : Nat} (hid : w.flex.core.count < id) : handled w.log id = 0 := by
+  obtain ⟨hle, hfin⟩ := hq.2 id
+  rcases Nat.lt_or_ge (handled w.log id) 1 with h | h
+  · omega
+  · have := hfin (by omega)
+    simp [isFinal, hq.1.wf.fresh hid] at this
+
+theorem dirty_flex {dep : Deposit} {w : World} {g : Cw4Group.State} {self : Addr} {blk : Block} {snd : Addr}
+    {funds : List Coin} {em : ExecMsg} {s' : State} {out : List Out} (hi : Inv w.flex)
+    (he : execute w.flex g self blk snd funds em = .ok (s', out)) (hd : Dirty dep w) :
+    Dirty dep { w with flex := s', log := w.log ++ [eventOf w.flex snd em] } := by
+  obtain ⟨id, p, h1, h2, m, hm, hs⟩ := hd
+  obtain ⟨p', hp', hf, _⟩ := (execute_later hi he).props id p h2
+  have hmsgs : p'.msgs = p.msgs := by have := congrArg Proposal.msgs hf; exact this
+  exact ⟨id, p', List.mem_append_left _ h1, hp', m, hmsgs ▸ hm, hs⟩
+
+/-- **One handler call, in pool terms.**  Whatever the call, with `info.funds` already credited to the multisig: either
+an executed proposal spends the deposit denomination, or the returned messages contain no spending proposal message and
+the pool — counting the `TransferFrom` still to be dispatched as incoming and the refunds still to be dispatched as
+outgoing — still covers what is owed after the call. -/
+theorem pool_flex {dep : Deposit} {w : World} {blk : Block} {snd : Addr} {funds : List Coin} {em : ExecMsg}
+    {s' : State} {out : List Out} (hg : PoolGood dep w)
+    (he : execute w.flex w.group w.self blk snd funds em = .ok (s', out)) :
+    PoolGood dep { w with flex := s', log := w.log ++ [eventOf w.flex snd em] } ∧
+    ∀ C K, (Dirty dep w ∨ due dep w + K + (if dep.cw20 then 0 else fundsOf dep.denom funds) ≤ holdings dep w + C) →
+      Dirty dep { w with flex := s', log := w.log ++ [eventOf w.flex snd em] } ∨
+      (cleanOuts dep out ∧
+        due dep { w with flex := s', log := w.log ++ [eventOf w.flex snd em] } + debits dep out + K ≤
+          holdings dep w + credits dep w.self out + C) := by
+  have hi := hg.ghost.1
+  obtain ⟨hcfg, hc⟩ := execute_cases he
+  refine ⟨⟨ghost_flex hg.ghost he, by rw [← hg.cfg]; exact congrArg Config.deposit hcfg, hg.grant⟩, ?_⟩
+  intro C K hpre
+  rcases hpre with hdirty | hpre
+  · exact Or.inl (dirty_flex hi he hdirty)
+  simp only [due] at hpre ⊢
+  rcases hc with ⟨t, d, msgs, latest, w0, total, id0, hm, _, _, _, _, hp⟩ | ⟨id0, v, hm, hout, hv⟩ |
+    ⟨id0, p, msgs, hm, hpp, hex, hout⟩ | ⟨id0, p, hm, hpp, hcl, hout⟩ | ⟨hm, _, hs, hout⟩
+  · -- propose
+    subst hm
+    right
+    obtain ⟨_, _, _, _, hid, _, hc'⟩ := propose_spec hp
+    have hcount : s'.core.count = w.flex.core.count + 1 := by rw [hc', hid]
+    have h0 := handled_fresh hg.ghost (id := w.flex.core.count + 1) (by omega)
+    have hpend : pend (w.log ++ [eventOf w.flex snd (.propose t d msgs latest)]) (w.flex.core.count + 1) =
+        pend w.log w.flex.core.count + 1 := by
+      simp only [pend]
+      rw [pend_congr (log := w.log) _ (fun id _ _ => by simp [handled_append, eventOf])]
+      simp [handled_append, eventOf, h0]
+    have hx := (propose_takes_exact_deposit hi he).1
+    simp only [hg.cfg] at hx
+    simp only [hcount, hpend, Nat.mul_add, Nat.mul_one]
+    by_cases hcw : dep.cw20 = true
+    · simp only [hcw, if_true] at hx hpre
+      subst hx
+      refine ⟨fun m hm => by simp at hm, ?_⟩
+      simp [outDebit, outCredit, hcw]
+      omega
+    · have hcw' : dep.cw20 = false := by simpa using hcw
+      simp only [hcw', Bool.false_eq_true, if_false] at hx hpre
+      obtain ⟨hf, rfl⟩ := hx
+      subst hf
+      refine ⟨cleanOuts_nil dep, ?_⟩
+      simp [fundsOf] at hpre ⊢
+      omega
+  · -- vote
+    subst hm; subst hout
+    right
+    obtain ⟨_, _, _, _, _, _, _, _, _, _, _, _, hc'⟩ := vote_spec hv
+    have hcount : s'.core.count = w.flex.core.count := by rw [hc']
+    rw [hcount, pend_congr (log := w.log) _ (fun id _ _ => by simp [handled_append, eventOf])]
+    exact ⟨cleanOuts_nil dep, by simp; omega⟩
+  · -- execute
+    subst hm
+    obtain ⟨p0, hp0, hst, _, hmsgs, hc'⟩ := execute_spec hex
+    rw [hpp] at hp0; cases hp0
+    have hcount : s'.core.count = w.flex.core.count := by rw [hc']
+    have hrange := (hi.wf.ids id0).mp (by rw [hpp]; rfl)
+    have h0 : handled w.log id0 = 0 := by
+      obtain ⟨hle, hfin⟩ := hg.ghost.2 id0
+      rcases Nat.lt_or_ge (handled w.log id0) 1 with h | h
+      · omega
+      · have := hfin (by omega)
+        have hnf := passed_not_final hst
+        simp [isFinal, hpp] at this
+        rcases this with h | h <;> simp_all
+    have hpend := pend_mark (log := w.log) (log' := w.log ++ [eventOf w.flex snd (.execute id0)]) h0
+      (by simp [handled_append, eventOf, h0])
+      (fun id hne => by
+        have : ¬ id0 = id := fun e => hne e.symm
+        simp [handled_append, eventOf, this]) _ hrange.1 hrange.2
+    have hdep : p.deposit = some dep := by rw [hi.propDeposit id0 p hpp, hg.cfg]
+    by_cases hclean : ∀ m ∈ p.msgs, spends dep m = false
+    · right
+      subst hout hmsgs
+      refine ⟨?_, ?_⟩
+      · intro m hm
+        simp [hdep] at hm
+        rcases hm with hm | hm
+        · unfold refundMsg at hm; split at hm <;> cases hm
+        · exact hclean m hm
+      · simp only [hdep, List.singleton_append, debits_cons, credits_cons, outDebit_refund, debits_msgs, hcount]
+        have hcr : credits dep w.self (p.msgs.map Out.msg) = 0 := by
+          induction p.msgs with
+          | nil => rfl
+          | cons m r ih => simp [outCredit, ih]
+        have hcr0 : outCredit dep w.self (refundMsg dep p.proposer) = 0 := by
+          unfold refundMsg; split <;> rfl
+        rw [hcr, hcr0]
+        rw [hpend] at hpre
+        simp only [Nat.mul_add, Nat.mul_one] at hpre
+        omega
+    · left
+      have : ∃ m ∈ p.msgs, spends dep m = true := by
+        apply Classical.byContradiction
+        intro hno
+        apply hclean
+        intro m hm
+        cases hs : spends dep m with
+        | false => rfl
+        | true => exact absurd ⟨m, hm, hs⟩ hno
+      obtain ⟨m, hm, hs⟩ := this
+      refine ⟨id0, { p with status := .executed }, by simp [eventOf], ?_, m, hm, hs⟩
+      rw [hc']; exact AMap.get?_set_eq _ _ _
+  · -- close
+    subst hm
+    right
+    obtain ⟨p0, st, hp0, hne, hnr, _, _, _, _, hc'⟩ := close_spec hcl
+    rw [hpp] at hp0; cases hp0
+    have hcount : s'.core.count = w.flex.core.count := by rw [hc']
+    have hrange := (hi.wf.ids id0).mp (by rw [hpp]; rfl)
+    have h0 : handled w.log id0 = 0 := by
+      obtain ⟨hle, hfin⟩ := hg.ghost.2 id0
+      rcases Nat.lt_or_ge (handled w.log id0) 1 with h | h
+      · omega
+      · have := hfin (by omega)
+        simp [isFinal, hpp] at this
+        rcases this with h | h <;> simp_all
+    have hpend := pend_mark (log := w.log) (log' := w.log ++ [eventOf w.flex snd (.close id0)]) h0
+      (by simp [handled_append, eventOf, h0])
+      (fun id hne => by
+        have : ¬ id0 = id := fun e => hne e.symm
+        simp [handled_append, eventOf, this]) _ hrange.1 hrange.2
+    have hdep : p.deposit = some dep := by rw [hi.propDeposit id0 p hpp, hg.cfg]
+    subst hout
+    rw [hpend] at hpre
+    simp only [Nat.mul_add, Nat.mul_one] at hpre
+    simp only [hdep, hcount]
+    split
+    · refine ⟨?_, ?_⟩
+      · intro m hm
+        simp at hm
+        unfold refundMsg at hm; split at hm <;> cases hm
+      · have hcr0 : outCredit dep w.self (refundMsg dep p.proposer) = 0 := by
+          unfold refundMsg; split <;> rfl
+        simp only [debits_cons, credits_cons, outDebit_refund, debits_nil, credits_nil, hcr0]
+        omega
+    · exact ⟨cleanOuts_nil dep, by simp; omega⟩
+  · -- hook
+    subst hm; subst hout; subst hs
+    right
+    rw [pend_congr (log := w.log) _ (fun id _ _ => by simp [handled_append, eventOf])]
+    exact ⟨cleanOuts_nil dep, by simp; omega⟩
+
+/-- The inequality carried through a dispatch: owed + outgoing still to be dispatched (+ `K`) ≤ holdings + incoming
+still to be dispatched (+ `C`). -/
+def Covered (dep : Deposit) (w : World) (outs : List Out) (C K : Nat) : Prop :=
+  due dep w + debits dep outs + K ≤ holdings dep w + credits dep w.self outs + C
+
+/-- What dispatching the first message `o` of `o :: rest` from `w` to `w1` has to establish. -/
+def StepOk (dep : Deposit) (w : World) (o : Out) (rest : List Out) (w1 : World) : Prop :=
+  PoolGood dep w1 ∧ w1.self = w.self ∧ (Dirty dep w → Dirty dep w1) ∧
+    ∀ C K, cleanOuts dep (o :: rest) → Covered dep w (o :: rest) C K → Dirty dep w1 ∨ Covered dep w1 rest C K
+
+/-- A leaf of the dispatch (bank send / token call): multisig state, log and address unchanged, and the pool moved by
+no more than the message's debit resp. by at least its credit. -/
+theorem step_leaf {dep : Deposit} {w w1 : World} {o : Out} {rest : List Out} (hg1 : PoolGood dep w1)
+    (hf : w1.flex = w.flex) (hl : w1.log = w.log) (hs : w1.self = w.self)
+    (hh : holdings dep w + outCredit dep w.self o ≤ holdings dep w1 + outDebit dep o) : StepOk dep w o rest w1 := by
+  refine ⟨hg1, hs, ?_, ?_⟩
+  · rintro ⟨id, p, h1, h2, h3⟩
+    exact ⟨id, p, hl ▸ h1, hf ▸ h2, h3⟩
+  · intro C K _ hle
+    right
+    simp only [Covered, debits_cons, credits_cons, due, hf, hl, hs] at hle ⊢
+    omega
+
+/-- **The dedicated dispatch induction** (the generic `dispatch_inv` quantifies over arbitrary bank and token changes
+and cannot carry a statement about balances).  Over the dispatch of any list of returned messages, depth-first with all
+nested handler calls: the balance-free invariant is kept, the multisig's address is kept, "an executed proposal spends
+the deposit denomination" is kept, and — when the list contains no spending proposal message — the inequality
+"owed + outgoing still to be dispatched ≤ holdings + incoming still to be dispatched" is carried from the start to the
+end, unless an executed proposal spends the deposit denomination. -/
+theorem pool_dispatch (ext : Ext) (dep : Deposit) (blk : Block) :
+    ∀ fuel w outs w', PoolGood dep w → dispatch ext fuel w blk outs = .ok w' →
+      PoolGood dep w' ∧ w'.self = w.self ∧ (Dirty dep w → Dirty dep w') ∧
+      ∀ C K, cleanOuts dep outs → Covered dep w outs C K → Dirty dep w' ∨ Covered dep w' [] C K := by
+  intro fuel
+  induction fuel with
+  | zero =>
+    intro w outs w' hg h
+    cases outs with
+    | nil => simp [dispatch] at h; subst h; exact ⟨hg, rfl, id, fun _ _ _ h => Or.inr h⟩
+    | cons o rest => simp [dispatch] at h
+  | succ fuel ih =>
+    intro w outs w' hg h
+    cases outs with
+    | nil => simp [dispatch] at h; subst h; exact ⟨hg, rfl, id, fun _ _ _ h => Or.inr h⟩
+    | cons o rest =>
+      simp only [dispatch, Res.bind_ok] at h
+      obtain ⟨w1, h1, h2⟩ := h
+      -- it suffices to treat the first message
+      suffices hstep : StepOk dep w o rest w1 by
+        obtain ⟨hg1, hs1, hd1, hsl1⟩ := hstep
+        obtain ⟨hg', hs', hd', hsl'⟩ := ih w1 rest w' hg1 h2
+        refine ⟨hg', hs'.trans hs1, fun h => hd' (hd1 h), fun C K hc hcov => ?_⟩
+        rcases hsl1 C K hc hcov with h | h
+        · exact Or.inl (hd' h)
+        · exact hsl' C K (cleanOuts_tail hc) h
+      -- a nested handler call followed by the dispatch of what it returned
+      have nested : ∀ (snd : Addr) (em : ExecMsg) (s' : State) (out : List Out),
+          outDebit dep o = 0 → outCredit dep w.self o = 0 →
+          execute w.flex w.group w.self blk snd [] em = .ok (s', out) →
+          dispatch ext fuel { w with flex := s', log := w.log ++ [eventOf w.flex snd em] } blk out = .ok w1 →
+          StepOk dep w o rest w1 := by
+        intro snd em s' out hd0 hc0 he hd
+        obtain ⟨hg2, hfl⟩ := pool_flex hg he
+        obtain ⟨hg1, hs1, hdd, hsl⟩ := ih _ out w1 hg2 hd
+        refine ⟨hg1, hs1, fun h => hdd (dirty_flex hg.ghost.1 he h), fun C K hc hcov => ?_⟩
+        have hpre : Dirty dep w ∨ due dep w + (K + debits dep rest) + (if dep.cw20 then 0 else fundsOf dep.denom []) ≤
+            holdings dep w + (C + credits dep w.self rest) := by
+          right
+          simp only [Covered, debits_cons, credits_cons, hd0, hc0] at hcov
+          simp; omega
+        rcases hfl _ _ hpre with h | ⟨hc2, hle⟩
+        · exact Or.inl (hdd h)
+        · rcases hsl (C + credits dep w.self rest) (K + debits dep rest) hc2
+            (by simpa [Covered, due, holdings, balance] using hle) with h | hle'
+          · exact Or.inl h
+          · right
+            simp only [Covered, debits_nil, credits_nil, hs1] at hle' ⊢
+            omega
+      -- a group call followed by the dispatch of the hooks it returned
+      have grouped : ∀ (g' : Cw4Group.State) (hooks : List Addr),
+          outDebit dep o = 0 → outCredit dep w.self o = 0 →
+          dispatch ext fuel { w with group := g', log := w.log ++ [.groupWrite blk.height] } blk
+            (hooks.map Out.groupHook) = .ok w1 → StepOk dep w o rest w1 := by
+        intro g' hooks hd0 hc0 hd
+        have hg2 : PoolGood dep { w with group := g', log := w.log ++ [.groupWrite blk.height] } := by
+          refine ⟨⟨hg.ghost.1, fun id => ?_⟩, hg.cfg, hg.grant⟩
+          have := hg.ghost.2 id
+          simpa [handled_append] using this
+        obtain ⟨hg1, hs1, hdd, hsl⟩ := ih _ _ w1 hg2 hd
+        refine ⟨hg1, hs1, fun h => hdd ?_, fun C K hc hcov => ?_⟩
+        · obtain ⟨id, p, h1, h2, h3⟩ := h
+          exact ⟨id, p, List.mem_append_left _ h1, h2, h3⟩
+        · have hpend : pend (w.log ++ [Event.groupWrite blk.height]) w.flex.core.count = pend w.log w.flex.core.count :=
+            pend_congr _ (fun id _ _ => by simp [handled_append])
+          rcases hsl (C + credits dep w.self rest) (K + debits dep rest) (cleanOuts_hooks dep hooks) (by
+            simp only [Covered, debits_cons, credits_cons, hd0, hc0] at hcov
+            simp only [Covered, due, holdings, balance, credits_hooks, debits_hooks, hpend] at hcov ⊢
+            omega) with h | hle'
+          · exact Or.inl h
+          · right
+            simp only [Covered, debits_nil, credits_nil, hs1] at hle' ⊢
+            omega
+      cases o with
+      | msg m =>
+        simp only at h1
+        cases hsc : selfCall m with
+        | some em =>
+          rw [hsc] at h1
+          simp only [Res.bind_ok] at h1
+          obtain ⟨⟨s', out⟩, he, hd⟩ := h1
+          exact nested w.self em s' out rfl rfl he hd
+        | none =>
+          rw [hsc] at h1
+          cases m with
+          | bank to amt denom =>
+            simp at h1
+            obtain ⟨b, hb, rfl⟩ := h1
+            refine ⟨⟨hg.ghost, hg.cfg, hg.grant⟩, rfl, id, fun C K hc hcov => ?_⟩
+            have hsp := hc (.bank to amt denom) (List.mem_cons_self ..)
+            right
+            have hh : holdings dep { w with bank := b } = holdings dep w := by
+              unfold holdings
+              split
+              · rfl
+              · rename_i hcw
+                have hne : ¬ denom = dep.denom := by
+                  intro e; simp [spends, hcw, e] at hsp
+                have := (bankSend_get hb w.self dep.denom).2.2
+                rw [if_neg (fun e : dep.denom = denom => hne e.symm)] at this
+                simpa [balance] using this
+            simp only [Covered, debits_cons, credits_cons, outDebit, outCredit, due, hh] at hcov ⊢
+            omega
+          | other tag =>
+            simp only at h1
+            cases hx : ext tag with
+            | none => simp [hx] at h1
+            | some ar =>
+              obtain ⟨add, remove⟩ := ar
+              simp only [hx, Res.bind_ok] at h1
+              obtain ⟨⟨g', outs⟩, _, hd⟩ := h1
+              have : (outs.map fun o => Out.groupHook o.hook) = (outs.map (·.hook)).map Out.groupHook := by simp
+              rw [this] at hd
+              exact grouped g' _ rfl rfl hd
+          | selfExecute id => simp [selfCall] at hsc
+          | selfClose id => simp [selfCall] at hsc
+          | selfVote id v => simp [selfCall] at hsc
+          | selfPropose l => simp [selfCall] at hsc
+          | noContract tag => simp at h1
+      | bank to amt denom =>
+        simp at h1
+        obtain ⟨b, hb, rfl⟩ := h1
+        refine step_leaf ⟨hg.ghost, hg.cfg, hg.grant⟩ rfl rfl rfl ?_
+        have := bankSend_from hb dep.denom
+        unfold holdings outDebit outCredit
+        split
+        · simp
+        · rename_i hcw
+          simp only [balance, hcw, true_and, Nat.add_zero]
+          exact this
+      | cw20Transfer token to amt =>
+        simp [tokenCall] at h1
+        obtain ⟨_, t', out', hex, _, rfl⟩ := h1
+        obtain ⟨hal, _, hb⟩ := cw20_transfer_self hex
+        refine step_leaf ⟨hg.ghost, hg.cfg, fun hc sp => by rw [hal]; exact hg.grant hc sp⟩ rfl rfl rfl ?_
+        unfold holdings outDebit outCredit
+        split
+        · rename_i hcw; simp [hcw]; exact hb
+        · rename_i hcw; simp [hcw, balance]
+      | cw20TransferFrom token owner to amt =>
+        simp [tokenCall] at h1
+        obtain ⟨_, t', out', hex, _, rfl⟩ := h1
+        by_cases hcw : dep.cw20 = true
+        · obtain ⟨_, hn', hb⟩ := cw20_transferFrom_self hex (hg.grant hcw)
+          refine step_leaf ⟨hg.ghost, hg.cfg, fun _ => hn'⟩ rfl rfl rfl ?_
+          simp only [holdings, hcw, if_true, outDebit, outCredit, true_and, Nat.add_zero]
+          rw [hb]; exact Nat.le_refl _
+        · refine step_leaf ⟨hg.ghost, hg.cfg, fun h => absurd h hcw⟩ rfl rfl rfl ?_
+          simp [holdings, hcw, outDebit, outCredit, balance]
+      | groupHook hook =>
+        simp only at h1
+        split at h1
+        · simp only [Res.bind_ok] at h1
+          obtain ⟨⟨s', out⟩, he, hd⟩ := h1
+          exact nested w.groupAddr .memberChangedHook s' out rfl rfl he hd
+        · simp at h1
+
+/-- Who signed the transaction. -/
+def Action.sender : Action → Addr
+  | .flex snd _ _ => snd
+  | .group snd _ => snd
+  | .token snd _ => snd
+
+/-- **Environment guard**: no transaction of the history is signed by the multisig's own address.  (A contract address
+has no key: the multisig acts only through the messages its handlers return, which the runtime dispatches — those are
+covered, at any nesting depth.) -/
+def External (self : Addr) (ops : List Op) : Prop := ∀ op ∈ ops, Action.sender op.act ≠ self
+
+/-- The world invariant of the pool accounting: the balance-free part, and — unless an executed proposal spends the
+deposit denomination — holdings ≥ owed. -/
+def PoolInv (dep : Deposit) (self : Addr) (w : World) : Prop :=
+  w.self = self ∧ PoolGood dep w ∧ (Dirty dep w ∨ due dep w ≤ holdings dep w)
+
+theorem pool_tx {ext : Ext} {fuel : Nat} {dep : Deposit} {self : Addr} {w w' : World} {blk : Block} {act : Action}
+    (hq : PoolInv dep self w) (hext : Action.sender act ≠ self) (h : tx ext fuel w blk act = .ok w') :
+    PoolInv dep self w' := by
+  obtain ⟨hself, hg, hcov⟩ := hq
+  cases act with
+  | flex snd funds m =>
+    simp only [tx, Res.bind_ok] at h
+    obtain ⟨b, hb, ⟨s', out⟩, he, hd⟩ := h
+    have hne : snd ≠ w.self := by rw [hself]; exact hext
+    have hgb : PoolGood dep { w with bank := b } := ⟨hg.ghost, hg.cfg, hg.grant⟩
+    have hhold : holdings dep { w with bank := b } =
+        holdings dep w + (if dep.cw20 then 0 else fundsOf dep.denom funds) := by
+      unfold holdings
+      split
+      · rfl
+      · simpa [balance] using moveFunds_get_to hb hne dep.denom
+    obtain ⟨hg2, hfl⟩ := pool_flex (w := { w with bank := b }) hgb he
+    obtain ⟨hg', hs', hdd, hsl⟩ := pool_dispatch ext dep blk fuel _ out w' hg2 hd
+    refine ⟨hs'.trans hself, hg', ?_⟩
+    have hpre : Dirty dep { w with bank := b } ∨
+        due dep { w with bank := b } + 0 + (if dep.cw20 then 0 else fundsOf dep.denom funds) ≤
+          holdings dep { w with bank := b } + 0 := by
+      rcases hcov with ⟨id, p, h1, h2, h3⟩ | hle
+      · exact Or.inl ⟨id, p, h1, h2, h3⟩
+      · right; rw [hhold]; simp only [due] at hle ⊢; omega
+    rcases hfl 0 0 hpre with h | ⟨hc, hle⟩
+    · exact Or.inl (hdd h)
+    · rcases hsl 0 0 hc (by simpa [Covered, due, holdings, balance] using hle) with h | h
+      · exact Or.inl h
+      · right; simpa [Covered] using h
+  | group snd m =>
+    simp only [tx, Res.bind_ok] at h
+    obtain ⟨⟨g', outs⟩, _, hd⟩ := h
+    have hg2 : PoolGood dep { w with group := g', log := w.log ++ [.groupWrite blk.height] } := by
+      refine ⟨⟨hg.ghost.1, fun id => ?_⟩, hg.cfg, hg.grant⟩
+      have := hg.ghost.2 id
+      simpa [handled_append] using this
+    have hmap : (outs.map fun o => Out.groupHook o.hook) = (outs.map (·.hook)).map Out.groupHook := by simp
+    rw [hmap] at hd
+    obtain ⟨hg', hs', hdd, hsl⟩ := pool_dispatch ext dep blk fuel _ _ w' hg2 hd
+    refine ⟨hs'.trans hself, hg', ?_⟩
+    rcases hcov with ⟨id, p, h1, h2, h3⟩ | hle
+    · exact Or.inl (hdd ⟨id, p, List.mem_append_left _ h1, h2, h3⟩)
+    · have hpend : pend (w.log ++ [Event.groupWrite blk.height]) w.flex.core.count = pend w.log w.flex.core.count :=
+        pend_congr _ (fun id _ _ => by simp [handled_append])
+      rcases hsl 0 0 (cleanOuts_hooks dep _) (by
+        simp only [Covered, due, holdings, balance, credits_hooks, debits_hooks, hpend] at hle ⊢
+        omega) with h | h
+      · exact Or.inl h
+      · right; simpa [Covered] using h
+  | token snd m =>
+    simp [tx] at h
+    obtain ⟨t, out, hex, _, rfl⟩ := h
+    have hne : snd ≠ w.self := by rw [hself]; exact hext
+    by_cases hcw : dep.cw20 = true
+    · obtain ⟨hn', hb⟩ := cw20_external hex hne (hg.grant hcw)
+      refine ⟨hself, ⟨hg.ghost, hg.cfg, fun _ => hn'⟩, ?_⟩
+      rcases hcov with ⟨id, p, h1, h2, h3⟩ | hle
+      · exact Or.inl ⟨id, p, h1, h2, h3⟩
+      · right
+        simp only [due, holdings, hcw, if_true] at hle ⊢
+        omega
+    · refine ⟨hself, ⟨hg.ghost, hg.cfg, fun h => absurd h hcw⟩, ?_⟩
+      rcases hcov with ⟨id, p, h1, h2, h3⟩ | hle
+      · exact Or.inl ⟨id, p, h1, h2, h3⟩
+      · right
+        simpa [due, holdings, hcw, balance] using hle
+
+theorem pool_run {ext : Ext} {fuel : Nat} {dep : Deposit} {self : Addr} :
+    ∀ (ops : List Op) (w : World), PoolInv dep self w → External self ops → PoolInv dep self (run ext fuel w ops)
+  | [], w, hq, _ => hq
+  | op :: rest, w, hq, hext => by
+    rw [run_cons]
+    refine pool_run rest _ ?_ (fun o ho => hext o (List.mem_cons_of_mem _ ho))
+    unfold step
+    split
+    · rename_i w' htx; exact pool_tx hq (hext op (List.mem_cons_self ..)) htx
+    · exact hq
+
+/-- The pool invariant holds right after instantiation: nothing is owed yet. -/
+theorem pool_init {m : InstMsg} {s : State} {g : Cw4Group.State} {t : Cw20.State} {bank : AMap (Addr × String) Nat}
+    {self ga ta : Addr} {h0 : Nat} {dep : Deposit} (hi : instantiate m (some g) = .ok s) (hd : s.cfg.deposit = some dep)
+    (hgr : dep.cw20 = true → NoGrant t self) : PoolInv dep self (World.init s g t bank self ga ta h0) := by
+  refine ⟨rfl, ⟨⟨instantiate_inv hi, fun id => by simp [World.init, handled]⟩, hd, hgr⟩, Or.inr ?_⟩
+  have : s.core = Core.empty := by
+    simp only [instantiate, Res.bind_ok] at hi
+    obtain ⟨_, _, _, _, _, _, _, _, hi⟩ := hi
+    simp at hi; subst hi; rfl
+  simp [due, World.init, this, Core.empty, pend]
+
+/-- **C15, pool clause (b): the deposit pool covers what is owed, over every history that does not spend it.**
+Start from any accepted instantiation with a configured deposit `dep`, on top of any group, any token state in which
+the multisig has granted no allowance (needed for a cw20 deposit only), any bank.  Run ANY history of transactions on
+the multisig, the group and the token — any senders other than the multisig's own address (`External`), any funds, any
+blocks, any number of concurrent proposals, nested self-calls and group updates dispatched by executed proposals.  If in
+the resulting world no *executed* proposal carries a message that spends the deposit denomination out of the multisig
+(`NoSpend`: no `BankMsg::Send` of the native deposit denom; the model's message language has no message that reaches the
+cw20 token, so for a cw20 deposit the guard is vacuous), then the multisig's holdings of the deposit denomination are at
+least the Σ of the deposits taken and not yet returned (`owed`: all proposals never Executed/Closed — including those
+stuck by D6). -/
+theorem pool_covers_owed_if_unspent {ext : Ext} {fuel : Nat} {m : InstMsg} {s : State} {g : Cw4Group.State}
+    {t : Cw20.State} {bank : AMap (Addr × String) Nat} {self ga ta : Addr} {h0 : Nat} {dep : Deposit} {ops : List Op}
+    (hi : instantiate m (some g) = .ok s) (hd : s.cfg.deposit = some dep)
+    (hgr : dep.cw20 = true → NoGrant t self) (hext : External self ops)
+    (hns : NoSpend dep (run ext fuel (World.init s g t bank self ga ta h0) ops)) :
+    owed (run ext fuel (World.init s g t bank self ga ta h0) ops) ≤
+      holdings dep (run ext fuel (World.init s g t bank self ga ta h0) ops) := by
+  obtain ⟨_, hg, hcov⟩ := pool_run (ext := ext) (fuel := fuel) ops _ (pool_init (bank := bank) (ga := ga) (ta := ta) (h0 := h0) hi hd hgr) hext
+  rw [owed_eq hg.ghost.1 hg.cfg]
+  rcases hcov with h | h
+  · exact absurd h (not_dirty_of_noSpend hns)
+  · exact h
 
 end CwPlus.Props.C15
